@@ -40,6 +40,7 @@ type c01Case struct {
 var (
 	c01Progress func(t int) int
 	c01TailCell int64
+	c01SizeCell int64
 )
 
 // one phase of a scripted schedule: run thread T until it has completed Ops operations, or — with
@@ -49,6 +50,7 @@ type c01Phase struct {
 	T       int
 	Ops     int
 	TailCAS bool
+	SizeAdd bool // stop right after T's atomic add of +1 to the free count (a push completed; with Ops>0: the op is still running)
 }
 
 // c01Script runs the phases in order, then every remaining thread to completion (lowest id first).
@@ -61,7 +63,13 @@ func c01Script(phases []c01Phase) vsChooser {
 		}
 		for k < len(phases) {
 			ph := phases[k]
-			stop := !alive[ph.T] || (!ph.TailCAS && c01Progress(ph.T) >= ph.Ops)
+			stop := !alive[ph.T] || (!ph.TailCAS && !ph.SizeAdd && c01Progress(ph.T) >= ph.Ops)
+			if ph.SizeAdd && last == ph.T && lastEv != nil && lastEv.Kind == vsKFAA && lastEv.Off == c01SizeCell && lastEv.A == 1 {
+				stop = true
+			}
+			if ph.SizeAdd && ph.Ops > 0 && c01Progress(ph.T) >= ph.Ops {
+				stop = true
+			}
 			if ph.TailCAS && last == ph.T && lastEv != nil && lastEv.Kind == vsKCAS && lastEv.Off == c01TailCell && lastEv.C == 1 {
 				stop = true
 			}
@@ -140,6 +148,7 @@ func c01Run(id int, strat string, n, cpb int, progs [][]c01Op, mk func(nthreads 
 	var threads []*vsThread
 	c01Progress = func(t int) int { return len(res[t]) }
 	c01TailCell = int64(uintptr(unsafe.Pointer(w.l.tail)) - uintptr(unsafe.Pointer(&w.mem[0])))
+	c01SizeCell = int64(uintptr(unsafe.Pointer(w.l.size)) - uintptr(unsafe.Pointer(&w.mem[0])))
 	pattern := func(tid int, off int) byte { return byte(17*tid + off/stride + 1) }
 	checkPayload := func(tid int, s *bufferSlice) {
 		off := int(s.offsetInShm) - w.base
@@ -577,6 +586,40 @@ func TestVerif_C01(t *testing.T) {
 			{T: 1, Ops: 2, TailCAS: true}, {T: 2, Ops: len(p2)}, {T: 3, Ops: len(p3)}}
 		c := c01Run(id, fmt.Sprintf("directed-stalled-pusher(chain=%v,behind=%d,drain=%d)", chain, behind, drain), nslots, cpb,
 			[][]c01Op{p0, p1, p2, p3}, func(int) vsChooser { return c01Script(phases) }, nil)
+		o.emit(c)
+		id++
+	}
+	// directed: a chain recycler (recycleBuffers) stalled right after it has pushed the FIRST slice of its chain.
+	// Another thread pushes behind that slice, drains the list up to it, allocates it and links it in front of a
+	// slice it holds.  Whatever the recycler does when it resumes, it may only give back the slices of ITS chain as
+	// it was when the call started (the link of a slice it has already released is no longer its to read).
+	for v := 0; v < 8; v++ {
+		cpb := []int{16, 32}[v%2]
+		extra := (v / 2) % 2 // further free slots in front of the cut
+		long := v/4 == 1     // three-slice chain
+		p0 := []c01Op{{K: "alloc"}, {K: "alloc"}}
+		if long {
+			p0 = append(p0, c01Op{K: "alloc"})
+		}
+		p0 = append(p0, c01Op{K: "update", Sz: 5, Link: true}, c01Op{K: "freeChain"})
+		p2 := []c01Op{{K: "alloc"}, {K: "freeOldest"}}
+		held0 := 2
+		if long {
+			held0 = 3
+		}
+		nslots := held0 + 1 + 2 + extra
+		var p1 []c01Op
+		for k := 0; k < 2+extra+1; k++ { // drains the free slots in front of the cut, then the recycled head itself
+			p1 = append(p1, c01Op{K: "alloc"})
+		}
+		for k := 0; k < 2+extra; k++ {
+			p1 = append(p1, c01Op{K: "freeOldest"})
+		}
+		p1 = append(p1, c01Op{K: "alloc"}, c01Op{K: "update", Sz: 9, Link: true})
+		phases := []c01Phase{{T: 0, Ops: len(p0) - 1}, {T: 2, Ops: 1}, {T: 0, Ops: len(p0), SizeAdd: true},
+			{T: 2, Ops: 2}, {T: 1, Ops: len(p1)}, {T: 0, Ops: len(p0)}}
+		c := c01Run(id, fmt.Sprintf("directed-stalled-chain-recycler(extra=%d,long=%v)", extra, long), nslots, cpb,
+			[][]c01Op{p0, p1, p2}, func(int) vsChooser { return c01Script(phases) }, nil)
 		o.emit(c)
 		id++
 	}
